@@ -342,7 +342,7 @@ def corr_cases(draw):
         if ctype != "event_count":
             c["condition"]["field"] = "user"
         if ctype == "value_percentile":
-            c["condition"]["percentile"] = draw(st.integers(1, 99))
+            c["condition"]["percentile"] = draw(st.sampled_from([0, 1, 50, 99, 100]))
     doc = {"title": "corr", "correlation": c}
     for k in ("id", "name", "status", "description", "tags", "level", "author", "references", "falsepositives"):
         if draw(st.booleans()):
